@@ -84,7 +84,8 @@ func c08Build(cs c08Case, uploadID string, metaLimit int) (rq *s3x.Req, verdict 
 			k = strings.Repeat("k", 1025+cs.K%2000)
 			verdict, wantCode = mustReject, "KeyTooLongError"
 		case "key-1024":
-			k = "p/" + strings.Repeat("k", 1022)
+			k = "p/" + strings.Repeat("k", 200) + "/" + strings.Repeat("m", 200) + "/" + strings.Repeat("n", 200) + "/" + strings.Repeat("o", 200) + "/"
+			k += strings.Repeat("q", 1024-len(k))
 		case "no-key":
 			withKey = false
 			verdict = mustReject
